@@ -10,6 +10,7 @@ Line protocol for C16 (activity-coefficient models).
         derives from (cg, Qs, Rs) and meet the hypotheses of the theorems
   tab I                           the object is an `IdealActivityCoefficients`
   new <csv>                       the caller creates a float ndarray          → `id=<k>`
+  newo <csv>                      the caller creates an ndarray of another dtype (int, float32) with these values
   call nd <id> <T>                `Gamma(x, T)` with that ndarray
   call seq <csv> <T>              `Gamma([..], T)` with a Python list
   f <id> <T>                      `Gamma.f(x, T, *Gamma.args)`
@@ -30,6 +31,8 @@ structure St where
   obj : Obj := .none
   /-- heap ids of the caller's arrays, in creation order (`new` answers the position here) -/
   names : Array Nat := #[]
+  /-- heap ids of caller arrays whose dtype is not float64 (`newo`) -/
+  other : List Nat := []
 
 def floats? (s : String) : Option (Array Float) :=
   if s == "-" then some #[] else ((splitComma s).mapM parseFloat?).map List.toArray
@@ -109,16 +112,23 @@ def step (st : St) (line : String) : St × String :=
       let (w', id) := st.w.alloc a
       ({ st with w := w', names := st.names.push id }, s!"id={st.names.size}")
     | none => (st, "bad-op")
+  | ["newo", xs] =>
+    -- an ndarray of another dtype (int64, float32, …) holding these values
+    match floats? xs with
+    | some a =>
+      let (w', id) := st.w.alloc a
+      ({ st with w := w', names := st.names.push id, other := id :: st.other }, s!"id={st.names.size}")
+    | none => (st, "bad-op")
   | ["call", "nd", id, T] =>
     match id.toNat? >>= (st.names[·]?), parseFloat? T, st.obj with
     | some id, some T, .group kind tb it =>
       if id < st.w.heap.size then
-        let (w', r) := st.w.call kind tb it (.nd id) T
+        let (w', r) := st.w.call kind tb it (if st.other.contains id then .ndOther id else .nd id) T
         st.answer w' r (w'.read id) (some id)
       else (st, "bad-op")
     | some id, some T, .ideal =>
       if id < st.w.heap.size then
-        let (w', r) := st.w.callIdeal (.nd id) T
+        let (w', r) := st.w.callIdeal (if st.other.contains id then .ndOther id else .nd id) T
         st.answer w' r (w'.read id) (some id)
       else (st, "bad-op")
     | _, _, _ => (st, "bad-op")
